@@ -441,3 +441,23 @@ Proof.
   pose proof (Forall_nth_error _ _ _ _ _ (wf_db _ (reachable_wf _ R)) E) as Ok0.
   eapply all_done_nth; [apply (ok_txn _ Ok0 M)|eassumption].
 Qed.
+
+Lemma closed_db_methods_return_ErrClosed : forall db h m, recv m = RDb -> closed_outcome db h m = ErrClosed.
+Proof. intros db h m R. unfold closed_outcome. now rewrite R. Qed.
+
+(* the full quiescence statement (without the exclusion dseek = false) is false for the machine, as it is for
+   the code: witness = create, write, SetReadOnly, drain, then a Get followed by a drain *)
+Lemma ro_quiesces_refuted_with_seeks :
+  exists s d db l,
+    reachable s /\ nth_error (dbs s) d = Some db /\ dmode db = RSwitched /\ iters_released db = true /\
+    forallb no_rw_open l = true /\
+    let s1 := fst (step s (CDrain d)) in
+    mlog (stor (run s1 l)) <> mlog (stor s1).
+Proof.
+  exists (run (init_state false [] 1%N) [COpen false true; CApi 0 0 DbPut; CApi 0 0 DbSetReadOnly]), 0.
+  eexists. exists [CApi 0 0 DbGet; CDrain 0].
+  split; [eexists _, _, _, _; reflexivity|].
+  split; [vm_compute; reflexivity|].
+  split; [reflexivity|]. split; [reflexivity|]. split; [reflexivity|].
+  vm_compute. discriminate.
+Qed.
